@@ -270,11 +270,12 @@ func (repo *Repository) GetVerifyOnlyLocatorHashes(ctx context.Context) ([]bitco
 
 func removeDuplicateHashes(hashes []bitcoin.Hash32) []bitcoin.Hash32 {
 	result := make([]bitcoin.Hash32, 0, len(hashes))
-	var previousHash bitcoin.Hash32
-	for i, hash := range hashes {
-		if i != 0 && previousHash.Equal(&hash) {
+	found := make(map[bitcoin.Hash32]bool)
+	for _, hash := range hashes {
+		if found[hash] {
 			continue
 		}
+		found[hash] = true
 		result = append(result, hash)
 	}
 
